@@ -358,6 +358,41 @@ def check_summary_key(rep, ctx):
                   key="C11.summary-key.injective", model=model, replay=path, reproduced=True if st == "FAILED" else (False if st == "ok" else None)))
 
 
+def check_reporter_wrapper(rep, ctx):
+    """'each denial adds exactly one occurrence ... including concurrent connections': the call the handler makes hands the summary to the
+    status actor with the WAITING send (back-pressure, nothing dropped when 100 actions are queued) and waits for the actor's reply"""
+    try:
+        w = ctx.method("AgentStatusSharedState", "add_one_failed_connection_summary") + "::{closure#0}"
+    except Exception as e:
+        rep.add(Query("add_one_failed_connection_summary located", "inconclusive", str(e), 0, "mirsym", key="C11.reporter"))
+        return
+    eng = ctx.engine(loop_bound=2)
+    paths = eng.explore(w)
+    rep.functions_encoded.append(w)
+    n_ok = 0
+    for i, r in enumerate(paths):
+        env = origin(r.args[0])
+        summary = env.child(("f", 1))
+        lossy = [e.callee for e in r.events if e.kind == "call" and re.search(r"mpsc::\w*Sender::(try_send|send_timeout|try_reserve\w*|blocking_send)$|UnboundedSender::send$", e.callee)]
+        sends = [e for e in r.events if e.kind == "await" and re.search(r"mpsc::Sender::send$", e.callee)]
+        carried = [e for e in sends if len(e.rargs) > 1 and isinstance(e.rargs[1], Agg) and e.rargs[1].variant == "AddOneFailedConnectionSummary" and any(same_origin(f, summary) for f in e.rargs[1].fields)]
+        is_err = isinstance(r.ret, Agg) and r.ret.variant == "Err"
+        if lossy:
+            rep.add(Query("reporter path %d: the summary is queued with the waiting send (a full queue delays, never drops)" % i, "violated", "uses %s" % lossy, 0, "mirsym", key="C11.reporter.send", reproduced=None))
+            continue
+        if is_err:
+            continue            # the actor is gone (send or reply failed): nothing to count into
+        n_ok += 1
+        ok = r.status == "return" and len(carried) == 1 and len(sends) == 1
+        rep.add(Query("reporter path %d: the summary is queued with the waiting send (a full queue delays, never drops), once, carrying the caller's summary" % i, "holds" if ok else "violated",
+                      "awaited sends %d, carrying the summary %d" % (len(sends), len(carried)), 0, "mirsym", key="C11.reporter.send", reproduced=None))
+        # the reply is awaited: the count is in the map when the handler goes on
+        aw = [e for e in r.events if e.kind == "await"]
+        waits = len(aw) >= 2 and r.events.index(aw[-1]) > r.events.index(sends[0]) if sends else False
+        rep.add(Query("reporter path %d: the actor's reply is awaited before the call returns" % i, "holds" if waits else "violated", "", 0, "mirsym", key="C11.reporter.reply", reproduced=None))
+    rep.add(Query("witness: reporter wrapper has a completing path", "witness-hit" if n_ok else "witness-missed", "%d" % n_ok, 0, "mirsym"))
+
+
 def check(rep, tier, seed):
     ctx = Ctx("agent")
     rep.extra["mir_dump"] = {"cache_hit": ctx.dump.cache_hit, "tree_hash": ctx.dump.hash, "seconds": round(ctx.dump.seconds, 1)}
@@ -368,6 +403,10 @@ def check(rep, tier, seed):
     check_summary_body(rep, ctx)
     check_actor_arms(rep, ctx)
     check_summary_key(rep, ctx)
+    check_reporter_wrapper(rep, ctx)
+    # "on each endpoint": the mode that decides is the mode of the destination's own rule slot
+    import p_c01
+    p_c01.check_rules_selection(rep, ctx)
     import p_c02
     p_c02.check_decision(rep, ctx)     # a denial is a denial in every mode but Disabled: is_allowed's decision does not depend on Audit/Enforce
     rep.assumptions += ["is_allowed (beyond its Disabled prefix) is uninterpreted in the authorizers: any decision", "Future::poll returns Ready"]
@@ -376,6 +415,8 @@ def check(rep, tier, seed):
 
     import e2e
     e2e.confirm(rep, "C11")
+    import batteries
+    batteries.confirm(rep, "C11")
 
 
 def replay(path):
